@@ -186,6 +186,87 @@ pub struct RunReport {
 }
 
 pub const DEADLINE_MS: u64 = 2_000;
+
+/// Execution deadline of the case that is running (0 = `DEADLINE_MS`; stored as ms + 1 so
+/// that a deadline of 0 ms can be expressed). Cases run one at a time on the worker thread.
+static DEADLINE_OVERRIDE: std::sync::atomic::AtomicU64 = std::sync::atomic::AtomicU64::new(0);
+
+pub fn set_case_deadline(ms: Option<u64>) {
+    DEADLINE_OVERRIDE.store(ms.map(|m| m + 1).unwrap_or(0), std::sync::atomic::Ordering::SeqCst);
+}
+
+pub fn case_deadline_ms() -> u64 {
+    match DEADLINE_OVERRIDE.load(std::sync::atomic::Ordering::SeqCst) {
+        0 => DEADLINE_MS,
+        v => v - 1,
+    }
+}
+
+// ---------------------------------------------------------------------------- hang guard
+//
+// "Each scan cycle terminates": a cycle that never returns must become a VIOLATION, not a
+// worker that hangs until the engine's watchdog turns the run into exit 2. A monitor thread
+// watches the CPU time the worker THREAD has spent inside the running cycle
+// (pthread_getcpuclockid + clock_gettime, so a slow or oversubscribed machine cannot trip it)
+// and, past 50x the case's execution deadline (at least 10 s), says so and aborts the
+// process: the engine attributes a dead worker to the journalled case and reports it as a
+// VIOLATION ("worker process died").
+/// CPU-time clock of the worker thread (Linux encodes the thread id in it: the value is
+/// NEGATIVE, so validity is kept in GUARD_SINCE != 0, never in the sign).
+static GUARD_CLOCK: std::sync::atomic::AtomicI32 = std::sync::atomic::AtomicI32::new(0);
+/// CPU time (ns, never 0) of the worker thread when the running cycle started; 0 = no cycle.
+static GUARD_SINCE: std::sync::atomic::AtomicU64 = std::sync::atomic::AtomicU64::new(0);
+static GUARD_BOUND_NS: std::sync::atomic::AtomicU64 = std::sync::atomic::AtomicU64::new(0);
+static GUARD_DEADLINE_MS: std::sync::atomic::AtomicU64 = std::sync::atomic::AtomicU64::new(0);
+static GUARD_STARTED: std::sync::Once = std::sync::Once::new();
+
+fn clock_ns(clk: libc::clockid_t) -> u64 {
+    let mut ts = libc::timespec { tv_sec: 0, tv_nsec: 0 };
+    unsafe {
+        libc::clock_gettime(clk, &mut ts);
+    }
+    (ts.tv_sec as u64).saturating_mul(1_000_000_000).saturating_add(ts.tv_nsec as u64)
+}
+
+fn guard_enter(deadline_ms: u64) {
+    use std::sync::atomic::Ordering::SeqCst;
+    let mut clk: libc::clockid_t = 0;
+    let ok = unsafe { libc::pthread_getcpuclockid(libc::pthread_self(), &mut clk) } == 0;
+    if !ok {
+        return;
+    }
+    GUARD_CLOCK.store(clk, SeqCst);
+    GUARD_DEADLINE_MS.store(deadline_ms, SeqCst);
+    GUARD_BOUND_NS.store((deadline_ms.saturating_mul(50)).max(10_000).saturating_mul(1_000_000), SeqCst);
+    GUARD_SINCE.store(clock_ns(clk).max(1), SeqCst);
+    GUARD_STARTED.call_once(|| {
+        let _ = std::thread::Builder::new().name("c01-hang-guard".into()).spawn(|| loop {
+            std::thread::sleep(std::time::Duration::from_millis(250));
+            let since = GUARD_SINCE.load(SeqCst);
+            if since == 0 {
+                continue;
+            }
+            let clk = GUARD_CLOCK.load(SeqCst);
+            let spent = clock_ns(clk).saturating_sub(since);
+            // re-read: the cycle may have ended (and another begun) in between
+            if GUARD_SINCE.load(SeqCst) != since {
+                continue;
+            }
+            if spent > GUARD_BOUND_NS.load(SeqCst) {
+                eprintln!(
+                    "C01 hang guard: cycle did not return: the worker thread spent {:.1} s of CPU time in one scan cycle with an execution deadline of {} ms (bound: 50x the deadline); no ExecutionTimeout was raised. Aborting this worker - the journalled case is the one whose cycle did not return.",
+                    spent as f64 / 1e9,
+                    GUARD_DEADLINE_MS.load(SeqCst)
+                );
+                std::process::abort();
+            }
+        });
+    });
+}
+
+fn guard_leave() {
+    GUARD_SINCE.store(0, std::sync::atomic::Ordering::SeqCst);
+}
 /// A cycle that needs more than this (50x the execution deadline) did not "return within the
 /// execution deadline": the budget check runs before every statement and loop iteration, so
 /// only a single unbounded primitive can get here.
@@ -274,9 +355,12 @@ pub fn compile(source: &str) -> Result<TestHarness, RunReport> {
 /// Run one cycle under the execution deadline.
 pub fn one_cycle(h: &mut TestHarness) -> Result<CycleObs, String> {
     let t0 = std::time::Instant::now();
-    let deadline = t0 + std::time::Duration::from_millis(DEADLINE_MS);
+    let deadline_ms = case_deadline_ms();
+    let deadline = t0 + std::time::Duration::from_millis(deadline_ms);
     h.runtime_mut().set_execution_deadline(Some(deadline));
+    guard_enter(deadline_ms);
     let res = catch(|| h.cycle());
+    guard_leave();
     let wall_ms = t0.elapsed().as_millis();
     let res = res?;
     h.runtime_mut().set_execution_deadline(None);
@@ -358,7 +442,7 @@ fn run_inner(source: &str, trace: &XTrace, mut log: Option<&mut StmtLog>) -> Run
             Some(e) => format!("{e:?}"),
             None => "Ok".into(),
         };
-        if obs.wall_ms > HARD_LIMIT_MS {
+        if obs.wall_ms > HARD_LIMIT_MS.max(case_deadline_ms() as u128 * 50) {
             rep.failure = Some(fail(
                 k,
                 "deadline".into(),
@@ -366,7 +450,7 @@ fn run_inner(source: &str, trace: &XTrace, mut log: Option<&mut StmtLog>) -> Run
                     "cycle {} returned after {} ms with an execution deadline of {} ms",
                     k + 1,
                     obs.wall_ms,
-                    DEADLINE_MS
+                    case_deadline_ms()
                 ),
                 obs.error.clone(),
             ));
